@@ -321,7 +321,7 @@ pub fn judge_c17(b: &Built, bad: &mut Vec<Bad>, stats: &mut BTreeMap<String, u64
                     }
                     if let Some((_, fs, _)) = env.virtuals(&path) {
                         for f in fs {
-                            if f.name.as_str().starts_with('_') {
+                            if f.name.as_str().starts_with('_') || !refprog::has_receiver(f) {
                                 continue;
                             }
                             expected_methods.insert(f.name.0.clone(), (expect_pub(f.visibility), doc_lines(&f.attributes)));
